@@ -13,7 +13,7 @@ from harness import common as C
 from harness import dfgen as G
 
 HEADER = ("From PF Require Import Gen.Tables Lib.ListX Model.Ragged Model.Mapper Model.MapperSpec "
-          "Model.Converter Model.ConverterRun.\nOpen Scope Z_scope.")
+          "Model.Converter Model.DatasetInit Model.ConverterRun.\nOpen Scope Z_scope.")
 MODEL_TARGETS = ["Model/ConverterRun.vo"]
 SCALE = 8
 
